@@ -67,7 +67,12 @@ package compile
 //@   loop 1: invariant forall(k, 0, ridx+1, has(usedIDs, fields[k].ID) && has(fieldsNS.names, apply_str(tr, src[k].Name)))
 //@   loop 1: invariant(idcard) len(usedIDs) == ridx + 1
 //@   loop 1: invariant(namecard) len(fieldsNS.names) == ridx + 1
+//@   loop 1: invariant(nextneg) nextNegativeID < 0 || nextNegativeID >= 9223372036854775807 - (ridx + 1)
+//@   loop 1: invariant(keptexplicit) forall(k, 0, len(src), !src[k].IDUnset ==> src[k].ID == old(src[k].ID))
+//@   loop 1: invariant(auto) options.allowNegativeIDs ==> forall(k, 0, ridx+1, src[k].IDUnset && old(src[k].ID) >= 0 ==> fields[k].ID < 0)
 //@   loop 1: decreases len(src) - ridx
+//@   ensures(explicit) err == nil ==> forall(k, 0, len(src), !src[k].IDUnset ==> int64(result[k].ID) == int64(old(src[k].ID)))
+//@   ensures(auto) err == nil && options.allowNegativeIDs ==> forall(k, 0, len(src), src[k].IDUnset && old(src[k].ID) >= 0 ==> result[k].ID < 0)
 //@   ensures(ids) err == nil ==> len(result) == len(src) && forall(k, 0, len(src), int64(result[k].ID) == int64(src[k].ID))
 //     Uniqueness of ids and names is carried by inv5 + idcard/namecard: n accepted
 //     fields whose ids (names) all lie in a set of exactly n registered ids (names)
